@@ -7,34 +7,40 @@
    The handler is free to choose between reporting and opening when both are possible, and in which order it
    reports; it is not free to stall, to reorder requests, to exceed max, to invent or to lose a report. *)
 EXTENDS TraceIO, FiniteSets
-VARIABLES l, max, to, queue, out, due
-vars == <<l, max, to, queue, out, due>>
+VARIABLES l, max, to, lto, queue, out, due
+vars == <<l, max, to, lto, queue, out, due>>
 R == Rec[l]
-Init == l = 1 /\ max = 1 /\ to = 0 /\ queue = <<>> /\ out = {} /\ due = <<>> /\ InitReg
+Init == l = 1 /\ max = 1 /\ to = 0 /\ lto = 0 /\ queue = <<>> /\ out = {} /\ due = <<>> /\ InitReg
 
 Drop(s, i) == [j \in 1..(Len(s) - 1) |-> IF j < i THEN s[j] ELSE s[j + 1]]
 
-Reset == /\ R.e = "reset" /\ max' = R.max /\ to' = R.to /\ queue' = <<>> /\ out' = {} /\ due' = <<>>
-Send == /\ R.e = "send" /\ queue' = Append(queue, R.r) /\ UNCHANGED <<max, to, out, due>>
+Reset == /\ R.e = "reset" /\ max' = R.max /\ to' = R.to /\ lto' = R.lto /\ queue' = <<>> /\ out' = {} /\ due' = <<>>
+Send == /\ R.e = "send" /\ queue' = Append(queue, R.r) /\ UNCHANGED <<max, to, lto, out, due>>
 PollOsr == /\ R.e = "poll" /\ R.res = "osr"
            /\ queue # <<>> /\ R.r = Head(queue) /\ R.to = to          \* P1: FIFO, that request, configured timeout
            /\ queue' = Tail(queue) /\ out' = out \cup {R.r}            \* P2 is the invariant Bounded
-           /\ UNCHANGED <<max, to, due>>
+           /\ UNCHANGED <<max, to, lto, due>>
 Report(x) == \E i \in 1..Len(due) : due[i] = x /\ due' = Drop(due, i)  \* P3: something that is due, exactly once
-PollOk == /\ R.e = "poll" /\ R.res = "ok" /\ Report([k |-> "ok", v |-> R.v]) /\ UNCHANGED <<max, to, queue, out>>
-PollErr == /\ R.e = "poll" /\ R.res = "err" /\ Report([k |-> R.k, v |-> R.v]) /\ UNCHANGED <<max, to, queue, out>>
+PollOk == /\ R.e = "poll" /\ R.res = "ok" /\ Report([k |-> "ok", v |-> R.v]) /\ UNCHANGED <<max, to, lto, queue, out>>
+PollErr == /\ R.e = "poll" /\ R.res = "err" /\ Report([k |-> R.k, v |-> R.v]) /\ UNCHANGED <<max, to, lto, queue, out>>
 PollPending == /\ R.e = "poll" /\ R.res = "pending"
                /\ due = <<>> /\ (queue = <<>> \/ Cardinality(out) >= max)   \* P4
-               /\ UNCHANGED <<max, to, queue, out, due>>
+               /\ UNCHANGED <<max, to, lto, queue, out, due>>
 OutOk == /\ R.e = "outok" /\ R.r \in out /\ out' = out \ {R.r}
-         /\ due' = Append(due, [k |-> "ok", v |-> R.v]) /\ UNCHANGED <<max, to, queue>>
+         /\ due' = Append(due, [k |-> "ok", v |-> R.v]) /\ UNCHANGED <<max, to, lto, queue>>
 OutErr == /\ R.e = "outerr" /\ R.r \in out /\ out' = out \ {R.r}
-          /\ due' = Append(due, [k |-> R.k, v |-> R.v]) /\ UNCHANGED <<max, to, queue>>
-InOk == /\ R.e = "inok" /\ due' = Append(due, [k |-> "ok", v |-> R.v]) /\ UNCHANGED <<max, to, queue, out>>
-Quiet == /\ R.e \in {"inerr", "addr", "skip"} /\ UNCHANGED <<max, to, queue, out, due>>
-Pend == /\ R.e = "pend" /\ R.n = Cardinality(out) + Len(queue) /\ UNCHANGED <<max, to, queue, out, due>>   \* P5
+          /\ due' = Append(due, [k |-> R.k, v |-> R.v]) /\ UNCHANGED <<max, to, lto, queue>>
+InOk == /\ R.e = "inok" /\ due' = Append(due, [k |-> "ok", v |-> R.v]) /\ UNCHANGED <<max, to, lto, queue, out>>
+Quiet == /\ R.e \in {"inerr", "addr", "skip"} /\ UNCHANGED <<max, to, lto, queue, out, due>>
+Pend == /\ R.e = "pend" /\ R.n = Cardinality(out) + Len(queue) /\ UNCHANGED <<max, to, lto, queue, out, due>>   \* P5
 
-Next == l <= NRec /\ l' = l + 1 /\ (Reset \/ Send \/ PollOsr \/ PollOk \/ PollErr \/ PollPending \/ OutOk \/ OutErr \/ InOk \/ Quiet \/ Pend)
+(* P6: listen_protocol() is the configured inbound protocol (upgrade and timeout), as last modified through listen_protocol_mut;
+   the handler does not keep the connection alive by itself *)
+Lp == /\ R.e = "lp" /\ R.protos = <<"/x/1">> /\ R.tag = 0 /\ R.to = lto /\ R.ref /\ UNCHANGED <<max, to, lto, queue, out, due>>
+LpSet == /\ R.e = "lpset" /\ lto' = R.to /\ UNCHANGED <<max, to, queue, out, due>>
+Ka == /\ R.e = "ka" /\ ((queue = <<>> /\ out = {} /\ due = <<>>) => R.res = FALSE) /\ UNCHANGED <<max, to, lto, queue, out, due>>
+
+Next == l <= NRec /\ l' = l + 1 /\ (Reset \/ Send \/ PollOsr \/ PollOk \/ PollErr \/ PollPending \/ OutOk \/ OutErr \/ InOk \/ Quiet \/ Pend \/ Lp \/ LpSet \/ Ka)
 Spec == Init /\ [][Next]_vars
 Bounded == Cardinality(out) <= max
 Progress == Mark(l)
